@@ -68,6 +68,7 @@ def lemmas(rank):
     f, g, P, a, b, s0 = I('f'), I('g'), I('P'), I('a'), I('b'), I('s0')
     out.append(('bounds_step', [0 <= a, a < s0, 0 <= f, f < P], z3.And(a * P + f >= 0, a * P + f < s0 * P)))
     out.append(('prod_nonneg_step', [s0 >= 0, P >= 0], s0 * P >= 0))
+    out.append(('prod_monotone_step', [0 <= a, a <= b, P >= 0], a * P <= b * P))
     out.append(('injective_step', [0 <= f, f < P, 0 <= g, g < P, a * P + f == b * P + g], z3.And(a == b, f == g)))
     # the full statements at this rank, from the definition (direct attempt; the step lemmas above are the fallback argument)
     inbox = [z3.And(L[k] >= 0, L[k] < S[k]) for k in range(rank)]
@@ -85,6 +86,14 @@ def lemmas(rank):
         S2 = list(S)
         S2[k] = S[k] * y
         out.append(('prod_mult_%d' % k, [], prod_def(S2) == y * prod_def(S)))
+    for k in range(rank):
+        # monotone in every argument (the others non-negative): by prod_monotone_step with P = product of the others
+        S2 = list(S)
+        S2[k] = y
+        others = [S[l] for l in range(rank) if l != k]
+        Pv = I('Pothers')
+        out.append(('prod_monotone_%d' % k, [Pv == prod_def(others), Pv >= 0, 0 <= S[k], S[k] <= y, z3.Implies(z3.And(0 <= S[k], S[k] <= y, Pv >= 0), S[k] * Pv <= y * Pv)],
+                    prod_def(S) <= prod_def(S2)))
     for k in range(rank - 1):
         S2 = list(S)
         S2[k], S2[k + 1] = S2[k + 1], S2[k]
